@@ -210,6 +210,7 @@ package casket
 //@   at call startWithListenerFds assert [restart_callbacks_first] nRestart == len(i.OnRestart) && nStop == 0 && nShut == 0
 //@   at call (*Instance).Stop assert [old_stops_after_new_started] nStart == 1 && nShut == 0
 //@   at call startWithListenerFds before [successor_shares_the_wait_group_of_its_lineage] arg1 != nil && arg1.wg == i.wg
+//@   at call startWithListenerFds before [successor_is_a_new_instance_with_storage_of_its_own] arg1 != i && arg1.Storage != nil && arg1.Storage != old(i.Storage) && i.Storage == old(i.Storage)
 //@   ensures [successor_returned_shares_the_wait_group] err == nil ==> inst.wg == i.wg
 //@   ensures [failure_keeps_old_instance] err != nil ==> inst == i
 //@   ensures [failed_callbacks_iff_failure] (err != nil ==> nFailed == len(i.OnRestartFailed)) && (err == nil ==> nFailed == 0)
@@ -376,3 +377,28 @@ package casket
 //@   ensures result != nil
 //@ func getCurrentCasketfile
 //@   ensures result2 == nil ==> result1 != nil
+
+//@ unit validate_only frames=on props=C08,C11 nilchecks=on filter=`casket\.ValidateAndExecuteDirectives$`
+//@ // C08 "a rejected configuration leaves nothing behind" / C11 "-validate and a real start agree": a validation-only call
+//@ // works on an instance of its own - whatever instance the caller hands it (an embedder may pass the running one) keeps
+//@ // its Casketfile and its context. Both modes run the same steps on the same input: the only thing justValidate selects is
+//@ // which instance they act on (and, inside executeDirectives, whether the parsing callbacks run).
+//@ func getServerType
+//@ func loadServerBlocks
+//@ extern bytes.NewReader
+//@ extern fmt.Errorf
+//@   ensures result != nil
+//@ extern invoke:(github.com/tmpim/casket.Input).ServerType
+//@ extern invoke:(github.com/tmpim/casket.Input).Path
+//@ extern invoke:(github.com/tmpim/casket.Input).Body
+//@ extern invoke:(github.com/tmpim/casket.Context).InspectServerBlocks
+//@ // assumed: the directive setups act on the instance they are given, not on another one
+//@ func executeDirectives
+//@   requires inst != nil
+//@   modifies Instance
+//@   ensures forallT(o, *Instance, o != inst ==> (o.casketfileInput == old(o.casketfileInput) && o.context == old(o.context)))
+//@ func ValidateAndExecuteDirectives
+//@   requires cdyfile != nil && (justValidate || inst != nil)
+//@   modifies Instance
+//@   ensures [validation_leaves_the_callers_instance_alone] (justValidate && inst != nil) ==> (inst.casketfileInput == old(inst.casketfileInput) && inst.context == old(inst.context))
+//@   at call executeDirectives before [same_steps_in_both_modes_on_the_chosen_instance] arg0 != nil && arg4 == justValidate && (justValidate ==> arg0 != old(inst)) && (!justValidate ==> arg0 == old(inst))
